@@ -169,8 +169,12 @@ void CodePrinter::bvisit(const BooleanAtom &x)
 }
 void CodePrinter::bvisit(const Integer &x)
 {
-    if (precision_ != CodePrinterPrecision::Double) {
-        str_ = print_scalar_literal(mp_get_d(x.as_integer_class()));
+    // an integer constant whose magnitude does not fit the widest signed integer
+    // type is not a valid C constant; print it as a floating literal
+    const integer_class &i = x.as_integer_class();
+    if (precision_ != CodePrinterPrecision::Double or not mp_fits_slong_p(i)
+        or not mp_fits_slong_p(integer_class(-i))) {
+        str_ = print_scalar_literal(mp_get_d(i));
     } else {
         StrPrinter::bvisit(x);
     }
